@@ -1,5 +1,6 @@
 """C11 — MS-GKDI structures and GetKey stubs have exactly the specified byte layout."""
 from __future__ import annotations
+import dataclasses
 import struct, uuid, os, json
 import prelude, gen
 from check import canon_exc, hx
@@ -229,6 +230,25 @@ def run(ctx):
             m = b[:i] + bytes([b[i] ^ (1 << rng.randrange(8))]) + b[i + 1:]
             cases.append((f"{opn} {hx(m)}", call(unp, m, fmt=show)))
             ctx.count("malformed:bitflip")
+    # ---- the reply as the client receives it: auth padding (0..15 octets, or no trailer at all) stripped, then the NDR64 reply decoded,
+    #      for every envelope length residue
+    import dpapi_ng._client as cl
+    from dpapi_ng import _rpc as r
+    from dpapi_ng._rpc import _request
+    for k in range(48 if ctx.thorough else 16):
+        env = gen.rand_env(rng)
+        env = dataclasses.replace(env, l2_key=bytes(rng.randrange(256) for _ in range(k)))      # every length residue
+        eb = env.pack()
+        reply = len(eb).to_bytes(4, "little") + b"\x00" * 4 + (0x20000).to_bytes(8, "little") + len(eb).to_bytes(8, "little") + eb + b"\x00" * (-len(eb) % 4) + b"\x00" * 4
+        for pad in [None, 0, 15, rng.randrange(1, 15)] + (list(range(1, 15)) if ctx.thorough else []):
+            tr = None if pad is None else r.SecTrailer(r.SecurityProvider(10), r.AuthenticationLevel(6), pad, 0, b"\x00" * 16)
+            resp = _request.Response(header=r.PDUHeader(5, 0, r.PacketType.RESPONSE, r.PacketFlags(3), r.DataRep(), 0, 16 if tr else 0, 1), sec_trailer=tr, alloc_hint=0,
+                                     context_id=0, cancel_count=0, stub_data=reply + bytes(rng.randrange(256) for _ in range(pad or 0)))
+            got = call(lambda: gen.env_fields(cl._process_get_key_result(resp)), fmt=str)
+            cases.append((f"getkey_result {hx(resp.stub_data)} {'none' if pad is None else pad}", got))
+            ctx.count(f"reply_auth_pad:{'none' if pad is None else 'zero' if pad == 0 else 'nonzero'}")
+            if got != "ok " + gen.env_fields(env):
+                ctx.violation("the GetKey reply is not decoded to the envelope it carries", {"envelope_len": len(eb), "auth_pad_length": pad}, got[:100], "the envelope")
     ctx.compare_batch(cases, nontrivial=lambda line, impl: impl.startswith("ok"))
 
 
